@@ -42,6 +42,13 @@ def run(call):
             hh.members_role = [ent.REFERENT if r else ent.CHILD for r in inrole]
             got = hh.value_from_person(vals, ent.REFERENT, default=-1.0)
             exp = [next((v for v, g, r in zip(vals, eid, inrole) if g == k and r), -1.0) for k in range(count)]
+        elif op == "value_nth_person":
+            n = call["n"]
+            got = hh.value_nth_person(n, vals, default=-1.0)
+            exp = []
+            for k in range(count):
+                members = [v for v, g in zip(vals, eid) if g == k]
+                exp.append(members[n] if len(members) > n else -1.0)
         else:
             raise ValueError(op)
         g = [float(x) for x in got]
